@@ -10,9 +10,9 @@ func init() {
 		Technique:   "schedule-generating property-based testing (rapid + testing/synctest) against a reference delivery model; race-detector variant",
 		DesignRef:   "DESIGN.md section 3, C01",
 		Runs: []run{
-			{Test: "TestC01_Seq", Quick: 4000, Thorough: 40000},
-			{Test: "TestC01_Race", Quick: 1000, Thorough: 10000, Race: true},
-			{Test: "TestC01_Wire", Quick: 1500, Thorough: 20000},
+			{Test: "TestC01_Seq", Quick: 4000, Thorough: 320000},
+			{Test: "TestC01_Race", Quick: 1000, Thorough: 80000, Race: true},
+			{Test: "TestC01_Wire", Quick: 1500, Thorough: 160000},
 		},
 	})
 }
